@@ -296,6 +296,30 @@ def _replay_table(lens, mode, lens2=None):
     return replay
 
 
+def _probe_dtypes():
+    """pc_n / pc on count vectors and labels held in NARROW NumPy dtypes (a count column read from a file is often int32 / int16): every term
+    n_i (n_i - 1) fits the dtype, their sum does not - the result must still be the exact ratio"""
+    import numpy as np
+    import pandas as pd
+    from pyrepseq import stats
+    bad = []
+    cases = [("uint8", [10, 10, 10]), ("int16", [150, 150] + [1] * 20), ("int32", [40000, 40000, 35000, 7, 1]), ("uint16", [200, 180, 3]),
+             ("int64", [40000, 40000, 35000, 7, 1]), ("int8", [11, 11, 2])]
+    for dt, counts in cases:
+        N = sum(counts)
+        want = Fraction(sum(c * (c - 1) for c in counts), N * (N - 1))
+        for name, arg in (("array", np.array(counts, dtype=dt)), ("Series", pd.Series(np.array(counts, dtype=dt))), ("list", list(counts))):
+            got = float(stats.pc_n(arg))
+            if abs(got - float(want)) > 1e-9:
+                bad.append(f"pc_n({dt} {name} {counts if len(counts) < 8 else str(counts[:4]) + '...'}) = {got!r}, expected {float(want)!r}")
+        if N <= 400:
+            labels = np.repeat(np.arange(len(counts)), counts).astype(dt if np.dtype(dt).kind in "iu" else "int64")
+            got = float(stats.pc(labels))
+            if abs(got - float(want)) > 1e-9:
+                bad.append(f"pc({dt} labels with multiplicities {counts[:4]}...) = {got!r}, expected {float(want)!r}")
+    return not bad, "[narrow-dtype probe] " + ("; ".join(bad) if bad else "ok")
+
+
 def conditions(tier):
     out = []
     NA, NB = (5, 3) if tier == "quick" else (6, 4)
@@ -358,4 +382,7 @@ def conditions(tier):
                                      bounds=f"table {name}"))
         out.append(Condition("C02/pc/strs/len=2,2,2", _body_strs((2, 2, 2), None), _replay_strs((2, 2, 2), None), budget=2400, models=M,
                              bounds="3 free strings of length 2"))
+    from harness import common as hc
+    out.append(hc.probe_condition("C02/probe/pc_n/narrow-integer-dtypes", "pc_n on count vectors stored as uint8 / int8 / int16 / uint16 / int32 arrays and Series whose "
+                                  "pair-count sum exceeds the dtype: exact ratio", _probe_dtypes))
     return out
